@@ -365,7 +365,33 @@ class Round:
 
     def arith(self, op, a, b):
         if a.opaque or b.opaque:
-            return self.opaque()
+            other = b if a.opaque else a
+            both = a.opaque and b.opaque
+            if op in ("*", "/"):
+                c = b.exact_const if (op == "/" or a.opaque) else a.exact_const
+                if c is None and op == "*":
+                    c = a.exact_const if b.opaque else None
+                if c is not None and c != 0 and not both:
+                    # data value scaled by a constant: exact for +-1 and powers of two, rounded otherwise
+                    dv = a if a.opaque else b
+                    if op == "/" and not a.opaque:
+                        pass  # constant / data: sign rule below
+                    else:
+                        e = dv.t * _q(c) if op == "*" else dv.t / _q(c)
+                        if abs(c) == 1 or _is_pow2(c):
+                            return RV(e, opaque=True)
+                        r = self.rnd(e, "dmulc")
+                        r.opaque = True
+                        return r
+                # data-derived product/quotient: magnitude free, but the sign rule is kept
+                r = self._sign_only("dmul" if op == "*" else "ddiv", a, b, op == "/")
+                r.opaque = True
+                return r
+            if both or other.exact_const is not None:
+                return self.opaque()
+            # tracked (time-like) value +- data value: keep the rounded sum (the data value may be constrained by comparisons)
+            e = a.t + b.t if op == "+" else a.t - b.t
+            return self.rnd(e, "dadd")
         if a.exact_const is not None and b.exact_const is not None:
             x, y = float(a.exact_const), float(b.exact_const)
             try:
@@ -472,16 +498,14 @@ class Round:
 
     def neg(self, a):
         if a.opaque:
-            return self.opaque()
+            return RV(-a.t, opaque=True)
         if a.exact_const is not None:
             return self.const(-a.exact_const)
         return RV(-a.t, lo=None if a.hi is None else -a.hi, hi=None if a.lo is None else -a.lo)
 
     def fabs(self, a):
         if a.opaque:
-            v = self.opaque("abs")
-            self.add(v.t >= 0, defines=v)
-            return v
+            return RV(_abs(a.t), opaque=True, lo=Fraction(0))
         if a.exact_const is not None:
             return self.const(abs(a.exact_const))
         lo, hi = Fraction(0), None
@@ -492,14 +516,8 @@ class Round:
         return RV(_abs(a.t), lo=lo, hi=hi)
 
     def fmax(self, a, b):
-        if a.opaque and b.opaque:
-            return self.opaque("max")
         if a.opaque or b.opaque:
-            p = b if a.opaque else a
-            v = self.fresh("max")
-            self.add(v.t >= p.t, defines=v)
-            v.lo = p.lo
-            return v
+            return RV(z3.If(a.t >= b.t, a.t, b.t), opaque=True, lo=max([x for x in (a.lo, b.lo) if x is not None], default=None))
         if a.exact_const is not None and b.exact_const is not None:
             return self.const(max(a.exact_const, b.exact_const))
         lo = max([x for x in (a.lo, b.lo) if x is not None], default=None)
@@ -507,14 +525,8 @@ class Round:
         return RV(z3.If(a.t >= b.t, a.t, b.t), lo=lo, hi=hi)
 
     def fmin(self, a, b):
-        if a.opaque and b.opaque:
-            return self.opaque("min")
         if a.opaque or b.opaque:
-            p = b if a.opaque else a
-            v = self.fresh("min")
-            self.add(v.t <= p.t, defines=v)
-            v.hi = p.hi
-            return v
+            return RV(z3.If(a.t <= b.t, a.t, b.t), opaque=True, hi=min([x for x in (a.hi, b.hi) if x is not None], default=None))
         if a.exact_const is not None and b.exact_const is not None:
             return self.const(min(a.exact_const, b.exact_const))
         hi = min([x for x in (a.hi, b.hi) if x is not None], default=None)
@@ -527,6 +539,7 @@ class Round:
             return self.const(Fraction(math.sqrt(float(a.exact_const))))
         v = self.opaque("sqrt")
         self.add(v.t >= 0, defines=v)
+        self.add(z3.Implies(a.t > 0, v.t > 0), defines=v)
         v.lo = Fraction(0)
         return v
 
@@ -552,6 +565,7 @@ class Round:
                 pass
         v = self.fresh("powf")
         self.add(v.t >= 0, defines=v)
+        self.add(z3.Implies(a.t > 0, v.t > 0), defines=v)   # positive base: positive result (normal range, no underflow)
         v.lo = Fraction(0)
         if e.exact_const is not None:
             ec = e.exact_const
